@@ -480,6 +480,29 @@ func (c *FnCtx) staticCall(fr *Frame, st *State, x *ssa.Call, callee *ssa.Functi
 		fr.regs[x] = c.quantifier(fr, st, callee.Name() == "verifForall", fr.val(cc.Args[0]).(*Term), fr.val(cc.Args[1]))
 		return
 	}
+	if callee.Pkg == c.eng.ld.SSA && (callee.Name() == "verifOldInt" || callee.Name() == "verifOldBool") && c.eng.isGhostFn(callee) {
+		// the closure is evaluated over the heaps the verified function was entered with (locals keep their
+		// current values): "what the specification function would have said at entry"
+		f, ok := fr.val(cc.Args[0]).(*FuncVal)
+		if !ok || f.fn == nil || c.curTopFrame == nil || c.curTopFrame.entryState == nil {
+			unsupported("%s needs a function literal", callee.Name())
+		}
+		work := st.clone()
+		work.heaps = map[string]*Term{}
+		for k, v := range c.curTopFrame.entryState.heaps {
+			work.heaps[k] = v
+		}
+		c.noObl++
+		var body []*Term
+		if len(f.bindings) > 0 {
+			body = c.inlineClosure(work, f.fn, nil, f.bindings)
+		} else {
+			body = c.inline(work, f.fn, nil, true)
+		}
+		c.noObl--
+		fr.regs[x] = body[0]
+		return
+	}
 	if callee.Pkg == c.eng.ld.SSA && (callee.Name() == "verifSumKeys" || callee.Name() == "verifSumVisited") && c.eng.isGhostFn(callee) {
 		fr.regs[x] = c.sumIntrinsic(fr, st, callee.Name(), cc)
 		return
